@@ -97,5 +97,9 @@ def gen(rng):
         opts['propagate_positions'] = True
     if rng.random() < 0.15:
         opts['g_regex_flags'] = 2           # re.I
+    if rng.random() < 0.15:
+        opts['use_bytes'] = True            # bytes mode: patterns are encoded when the lexer is (re)built
+    if rng.random() < 0.15:
+        opts['regex'] = True                # the `regex` module instead of `re`
     samples = {'NAME': NAME_SAMPLES, 'NUM': ['1', '42'], 'STR': ['"s"', '""'], 'BLOB': ['<<a\nb>>', '<<x>>', '<<\n\n q>>']}
     return {'grammar': '\n'.join(lines) + '\n', 'options': opts, 'samples': samples}
